@@ -50,6 +50,15 @@ def run(ctx):
     ctx.floor('R12.9', C06.sibling(ctx, 'R12.9', pairs=(('VisualSort', 'BatchVisualSort'),)), 3)
     ctx.rule('R12.7', 'positional fallback = the positional metric clauses of SORT (gate, detection confidence floor, cost)')
     ctx.floor('R12.7', M.rule_positional(ctx, 'R12.7'), 14)
+    import wiring
+    ctx.rule('R12.10', 'the observation a caller builds carries its feature, quality, box and custom id unchanged '
+                       '(constructor stores its parameters as given; the trackers apply the documented defaults)')
+    ctx.floor('R12.10', wiring.identity_ctor(ctx, 'R12.10', 'trackers::visual_sort::VisualSortObservation::new'), 4)
+    # the cosine / euclidean distances the appearance votes are counted on (shared with C16)
+    from props import C16
+    ctx.rule('R12.11', 'the visual distances votes are counted on: euclidean / cosine over the common prefix (rules of C16)')
+    n = C16.euclidean_rule(ctx, 'R12.11') + C16.cosine_rule(ctx, 'R12.11')
+    ctx.floor('R12.11', n, 14)
 
 
 def gates(ctx, R):
